@@ -211,6 +211,9 @@ func (p *RevProfile) genOCSPContent(t *Tape, sc *RevScenario, truth int, deviate
 		c.InvOnAny = true
 		c.InvKind = 1 + t.Choose(3)
 	}
+	// a response of exactly (or one byte around) the size the client is
+	// prepared to read
+	c.Pad = t.Weighted(93, 2, 3, 2)
 	if !deviate {
 		return c
 	}
@@ -434,10 +437,10 @@ func GenRevScenario(t *Tape, p *RevProfile) *RevScenario {
 			}
 		}
 	}
-	for i := 0; i < p.Schedules-1; i++ {
+	for i := 0; i < p.Schedules-1 && !sc.Sequential; i++ {
 		sc.AltSeeds = append(sc.AltSeeds, uint32(t.Choose(1<<30)))
 	}
-	if p.Perms != 0 {
+	if p.Perms != 0 && !sc.Sequential {
 		// forced completion orders of the concurrent per-certificate checks:
 		// all m! of them (Perms < 0) or a seeded sample of Perms
 		m := 0
